@@ -169,4 +169,175 @@ theorem mem_candidates_of_minimax {sc : Condorcet.Scorer} {p : RProfile} {w : Ca
   exact h.1
 
 
+/-! ### score-sum with a numeric `unscored_value` -/
+
+theorem scoreSum_eq_accum (p : SProfile) : scoreSum p = accum scoreItems p [] := by
+  unfold scoreSum accum
+  congr 1
+  funext agg bw
+  simp [scoreItems, List.foldl_map]
+
+def swItems (bw : ScoreBallot × Rat) : List (Cand × Rat) := bw.1.map (fun cs => (cs.1, bw.2))
+
+theorem scoredWeight_eq_accum (p : SProfile) : scoredWeight p = accum swItems p [] := by
+  unfold scoredWeight accum
+  congr 1
+  funext agg bw
+  simp [swItems, List.foldl_map]
+
+/-- 1 if the ballot scores `c` -/
+def scoresInd (b : ScoreBallot) (c : Cand) : Rat := if c ∈ dkeys b then 1 else 0
+
+theorem toFun_map_weight (b : ScoreBallot) (v : Rat) (c : Cand) (hnd : (b.map (·.1)).Nodup) :
+    toFun (b.map (fun cs => (cs.1, v))) c = v * (if c ∈ b.map (·.1) then 1 else 0) := by
+  induction b with
+  | nil => simp
+  | cons a t ih =>
+    simp only [List.map_cons, List.nodup_cons] at hnd
+    rw [List.map_cons, toFun_cons, ih hnd.2]
+    by_cases h : a.1 = c
+    · subst h
+      simp [hnd.1]
+    · have h' : ¬ c = a.1 := fun e => h e.symm
+      by_cases h2 : c ∈ t.map (·.1)
+      · simp [h, h2]
+      · simp [h, h', h2]
+
+theorem toFun_swItems (bw : ScoreBallot × Rat) (hb : ScoreBallotOK bw.1) (c : Cand) :
+    toFun (swItems bw) c = bw.2 * scoresInd bw.1 c := by
+  have hnd : (bw.1.map (·.1)).Nodup := by
+    unfold ScoreBallotOK dkeys at hb
+    exact hb.imp (fun h => Nat.ne_of_lt h)
+  exact toFun_map_weight bw.1 bw.2 c hnd
+
+theorem getD_eq_toFun (d : Votes) (hn : (keys d).Nodup) (c : Cand) : getD d c 0 = toFun d c := by
+  induction d with
+  | nil => simp [getD, lookup]
+  | cons e t ih =>
+    obtain ⟨a, x⟩ := e
+    simp only [keys, List.map_cons, List.nodup_cons] at hn
+    rw [toFun_cons]
+    unfold getD at ih ⊢
+    rw [Condorcet.lookup_cons]
+    by_cases h : a = c
+    · subst h
+      have : toFun t a = 0 := toFun_eq_zero_of_not_mem (by simpa [dkeys] using hn.1)
+      simp [this]
+    · simp only [h, if_false]
+      rw [ih hn.2]; ring
+
+theorem toFun_map_add (d : Votes) (hn : (keys d).Nodup) (g : Cand → Rat) (c : Cand) (hc : c ∈ keys d) :
+    toFun (d.map (fun e => (e.1, e.2 + g e.1))) c = toFun d c + g c := by
+  induction d with
+  | nil => simp [keys] at hc
+  | cons e t ih =>
+    simp only [keys, List.map_cons, List.nodup_cons, List.mem_cons] at hn hc
+    rw [List.map_cons, toFun_cons, toFun_cons]
+    simp only
+    by_cases h : e.1 = c
+    · subst h
+      have h1 : toFun t e.1 = 0 := toFun_eq_zero_of_not_mem (by simpa [dkeys] using hn.1)
+      have h2 : toFun (t.map (fun e => (e.1, e.2 + g e.1))) e.1 = 0 :=
+        toFun_eq_zero_of_not_mem (by simpa [dkeys, List.map_map, Function.comp_def] using hn.1)
+      rw [if_pos rfl, if_pos rfl, h1, h2]; ring
+    · rw [if_neg h, if_neg h]
+      rcases hc with hc | hc
+      · exact absurd hc.symm h
+      · rw [ih hn.2 hc]; ring
+
+/-- what a ballot counts for `c` when unscored candidates count as `u` -/
+def valU (u : Rat) (b : ScoreBallot) (c : Cand) : Rat := toFun b c + u * (1 - scoresInd b c)
+
+theorem wsum_valU (u : Rat) (p : SProfile) (c : Cand) :
+    wsum p (fun b => valU u b c)
+      = wsum p (fun b => toFun b c) + (wsum p (fun _ => 1) - wsum p (fun b => scoresInd b c)) * u := by
+  induction p with
+  | nil => simp
+  | cons a t ih => rw [wsum_cons, wsum_cons, wsum_cons, wsum_cons, ih]; simp only [valU]; ring
+
+/-- every ballot of the profile is in canonical form -/
+def ScoreProfileOK (p : SProfile) : Prop := ∀ b ∈ dkeys p, ScoreBallotOK b
+
+theorem toFun_scoredWeight (p : SProfile) (hp : ScoreProfileOK p) (c : Cand) :
+    toFun (scoredWeight p) c = wsum p (fun b => scoresInd b c) := by
+  rw [scoredWeight_eq_accum, toFun_accum]
+  simp only [toFun_nil, zero_add, wsum]
+  congr 1
+  apply List.map_congr_left
+  intro bw hbw
+  exact toFun_swItems bw (hp bw.1 (List.mem_map.mpr ⟨bw, hbw, rfl⟩)) c
+
+theorem keys_scoreSumU (u : Rat) (p : SProfile) : keys (scoreSumU u p) = keys (scoreSum p) := by
+  simp [scoreSumU, keys, List.map_map, Function.comp_def]
+
+theorem nodup_scoreSum (p : SProfile) : (keys (scoreSum p)).Nodup := by
+  rw [scoreSum_eq_accum]; exact Additive.nodup p
+
+/-- the totals with a fill-in value are weighted sums of the per-ballot values -/
+theorem toFun_scoreSumU (u : Rat) (p : SProfile) (hp : ScoreProfileOK p) (c : Cand) (hc : c ∈ keys (scoreSum p)) :
+    toFun (scoreSumU u p) c = wsum p (fun b => valU u b c) := by
+  unfold scoreSumU
+  rw [toFun_map_add _ (nodup_scoreSum p) (fun c => (sumValues p - getD (scoredWeight p) c 0) * u) c hc]
+  have hsw : (keys (scoredWeight p)).Nodup := by rw [scoredWeight_eq_accum]; exact Additive.nodup p
+  rw [getD_eq_toFun _ hsw, toFun_scoredWeight p hp, sumValues_eq_wsum, wsum_valU]
+  congr 1
+  rw [scoreSum_eq_accum]; exact score_additive.toFun_eq p c
+
+theorem mem_keys_scoreSum (p : SProfile) (c : Cand) : c ∈ keys (scoreSum p) ↔ ∃ b ∈ dkeys p, c ∈ dkeys b := by
+  rw [scoreSum_eq_accum]; exact score_additive.mem_keys p c
+
+theorem scoresInd_raiseScore (w : Cand) (s : Rat) (b : ScoreBallot) (c : Cand) :
+    scoresInd (raiseScore w s b) c = if c = w then 1 else scoresInd b c := by
+  unfold scoresInd
+  by_cases h : c = w
+  · rw [if_pos h, if_pos ((mem_dkeys_raiseScore w s b c).mpr (Or.inl h))]
+  · rw [if_neg h]
+    by_cases h2 : c ∈ dkeys b
+    · rw [if_pos h2, if_pos ((mem_dkeys_raiseScore w s b c).mpr (Or.inr h2))]
+    · rw [if_neg h2, if_neg (fun h3 => by
+        rcases (mem_dkeys_raiseScore w s b c).mp h3 with h4 | h4
+        · exact h h4
+        · exact h2 h4)]
+
+theorem valU_raiseScore_other (u : Rat) (w : Cand) (s : Rat) (b : ScoreBallot) (hb : ScoreBallotOK b) (c : Cand) (hc : c ≠ w) :
+    valU u (raiseScore w s b) c = valU u b c := by
+  unfold valU
+  rw [toFun_raiseScore w s b hb c, scoresInd_raiseScore, if_neg hc, if_neg hc]
+
+theorem valU_raiseScore_self (u : Rat) (w : Cand) (s : Rat) (b : ScoreBallot) (hb : ScoreBallotOK b) :
+    valU u (raiseScore w s b) w = s := by
+  unfold valU
+  rw [toFun_raiseScore w s b hb w, scoresInd_raiseScore, if_pos rfl, if_pos rfl]; ring
+
+theorem scoreBallotOK_raiseScore (w : Cand) (s : Rat) (b : ScoreBallot) (hb : ScoreBallotOK b) :
+    ScoreBallotOK (raiseScore w s b) := by
+  unfold ScoreBallotOK at *
+  induction b with
+  | nil => simp [raiseScore, dkeys]
+  | cons e rest ih =>
+    obtain ⟨c, x⟩ := e
+    simp only [dkeys, List.map_cons, List.pairwise_cons] at hb ih
+    obtain ⟨hlt, hrest⟩ := hb
+    simp only [raiseScore]
+    by_cases h1 : w < c
+    · rw [if_pos h1]
+      simp only [dkeys, List.map_cons, List.pairwise_cons, List.mem_cons]
+      refine ⟨?_, hlt, hrest⟩
+      rintro a (rfl | ha)
+      · exact h1
+      · exact lt_trans h1 (hlt a ha)
+    · rw [if_neg h1]
+      by_cases h2 : w = c
+      · rw [if_pos h2]
+        simp only [dkeys, List.map_cons, List.pairwise_cons]
+        exact ⟨hlt, hrest⟩
+      · rw [if_neg h2]
+        simp only [dkeys, List.map_cons, List.pairwise_cons]
+        refine ⟨?_, ih hrest⟩
+        intro a ha
+        have := (mem_dkeys_raiseScore w s rest a).mp (by simpa [dkeys] using ha)
+        rcases this with rfl | ha'
+        · exact lt_of_le_of_ne (Nat.le_of_not_lt h1) (fun h => h2 h.symm)
+        · exact hlt a (by simpa [dkeys] using ha')
+
 end VL.Mono
